@@ -39,6 +39,36 @@ Theorem C08_forged_not_acted_on :
 Proof. exact forged_not_acted_on. Qed.
 Print Assumptions C08_forged_not_acted_on.
 
+(* The decision of one read-loop iteration, both halves: a datagram is handed over to identifier i iff it parses,
+   carries i, a request is outstanding on i and the datagram verifies against THAT request.  Hence a datagram
+   that does not verify is ignored; [awaiting] is unchanged by ignored datagrams (EvRecv _ None), so ... *)
+Theorem C08_reply_decision :
+  forall md5raw fl, f_reply fl = true ->
+  forall secret st h d i,
+    cinv st h ->
+    (snd (cstep md5raw fl secret st (CRecv d)) = Some i <->
+     exists p req, parse d = Some p /\ p_id p = i /\ awaiting h i = Some req /\
+                   resp_auth_ok md5raw secret (sub 4 16 req) (truncate d) = true /\
+                   ma_resp_ok md5raw secret (sub 4 16 req) (truncate d) = true).
+Proof. exact crecv_decision. Qed.
+Print Assumptions C08_reply_decision.
+
+(* ... the positive half of "at most one delivery per request": after ANY history in which the request is still
+   outstanding — whatever forged, stale, malformed or replayed datagrams arrived since it was sent — the reply
+   that verifies against it IS handed over.  A forged datagram cannot consume the slot of the genuine reply. *)
+Theorem C08_genuine_reply_delivered :
+  forall md5raw fl, f_reply fl = true ->
+  forall secret ops st outs d p req,
+    Forall op_wf ops ->
+    crun md5raw fl secret pending0 ops = (st, outs) ->
+    parse d = Some p ->
+    awaiting (rev (events ops outs)) (p_id p) = Some req ->
+    resp_auth_ok md5raw secret (sub 4 16 req) (truncate d) = true ->
+    ma_resp_ok md5raw secret (sub 4 16 req) (truncate d) = true ->
+    snd (cstep md5raw fl secret st (CRecv d)) = Some (p_id p).
+Proof. exact genuine_reply_delivered. Qed.
+Print Assumptions C08_genuine_reply_delivered.
+
 (* Provider.Authenticate (one server, one try): whatever it returns other than an error was decided by a
    datagram that is among those received, carries the identifier of the request, has the matching code
    (Access-Accept for Allowed — with exactly the attributes extracted from THAT datagram — Access-Reject for
@@ -53,6 +83,27 @@ Theorem C08_authenticate_authentic :
     end.
 Proof. exact authenticate_authentic. Qed.
 Print Assumptions C08_authenticate_authentic.
+
+(* Fail-over (sendAuthWithFailover / sendAcctWithFailover, one try per server): every server has its own socket
+   and its own secret.  Whatever Authenticate returns other than an error was decided on ONE server of the list,
+   all servers before it handed nothing over, and the deciding datagram arrived on THAT server's socket, answers
+   the request written to THAT socket and verifies under THAT server's secret — never under another server's. *)
+Theorem C08_failover_reply_under_own_secret :
+  forall md5raw fl, f_reply fl = true ->
+  forall extract servers,
+    match authenticate_failover md5raw fl extract servers with
+    | AAllowed attrs =>
+      exists pre s post d p, servers = pre ++ s :: post /\
+        Forall (fun s' => try_server md5raw fl s' = None) pre /\
+        verified_on md5raw s d /\ parse d = Some p /\ p_code p = 2 /\ attrs = extract (p_attrs p)
+    | ADenied =>
+      exists pre s post d p, servers = pre ++ s :: post /\
+        Forall (fun s' => try_server md5raw fl s' = None) pre /\
+        verified_on md5raw s d /\ parse d = Some p /\ p_code p = 3
+    | AError => True
+    end.
+Proof. exact authenticate_failover_authentic. Qed.
+Print Assumptions C08_failover_reply_under_own_secret.
 
 (* toy hash used only for concrete witnesses (the theorems hold for every function) *)
 Definition toy (l : bytes) : bytes := [fold_left (fun a x => (a * 31 + x + 7) mod 256) l 1].
@@ -77,6 +128,18 @@ Example C08_authenticate_authentic_nonvacuous :
   authenticate toy defective ex_secret (fun _ => []) ex_req [ex_forged; ex_reject] = AAllowed [].
 Proof. vm_compute. repeat split; reflexivity. Qed.
 Print Assumptions C08_authenticate_authentic_nonvacuous.
+
+(* server A (secret ex_secret) silent, server B (secret [66]) receives a reply signed with A's secret, then its own *)
+Definition ex_genuine_B : bytes :=
+  [2; 7; 0; 20] ++ md5 toy ([2; 7; 0; 20] ++ repeat 17 16 ++ [66]).
+Example C08_failover_nonvacuous :
+  authenticate_failover toy head (fun _ => []) [(ex_secret, ex_req, []); ([66], ex_req, [ex_genuine; ex_genuine_B])] = AAllowed [] /\
+  try_server toy head ([66], ex_req, [ex_genuine]) = None /\
+  try_server toy head ([66], ex_req, [ex_genuine; ex_genuine_B]) = Some ex_genuine_B /\
+  (* forged first, genuine second: the genuine one is still delivered *)
+  snd (crun toy head ex_secret pending0 [CSend 7 ex_req; CRecv ex_forged; CRecv ex_forged; CRecv ex_genuine]) = [None; None; None; Some 7].
+Proof. vm_compute. repeat split; reflexivity. Qed.
+Print Assumptions C08_failover_nonvacuous.
 
 (* before commit 7e62e2a (f_reply off): the forged datagram is delivered although its authenticator does not verify *)
 Lemma C08_reply_authentic_refuted :
@@ -136,7 +199,7 @@ Example C08_coa_admission_nonvacuous :
 Proof. vm_compute. repeat split; reflexivity. Qed.
 Print Assumptions C08_coa_admission_nonvacuous.
 
-(* What /repo HEAD guarantees today (Event-Timestamp not required): everything above, but the window is
+(* What /repo HEAD guarantees (Event-Timestamp not required; the finding is recorded as known, not fixed): everything above, but the window is
    enforced only on requests that carry a usable Event-Timestamp. *)
 Theorem C08_coa_admission_head_window_only_if_timestamped :
   forall md5raw cfg now src bus raw e,
